@@ -3,10 +3,12 @@ package main
 
 import (
 	"context"
+	"errors"
 	"fmt"
 	"io"
 	"log"
 	"math/rand"
+	"os"
 	"reflect"
 	"sort"
 	"strings"
@@ -17,6 +19,7 @@ import (
 	"perkeep.org/pkg/blob"
 	"perkeep.org/pkg/index"
 	"perkeep.org/pkg/search"
+	"perkeep.org/pkg/types/camtypes"
 
 	"verif.local/harness/ev"
 	"verif.local/harness/hw"
@@ -54,7 +57,7 @@ func short(r blob.Ref) string {
 
 func main() {
 	ev.Main("C07", "exploration",
-		"generated permanodes with 1-14 set/add/del claims (multi-valued, repeated values, values needing escaping, two signers, sub-second dates) and delete/undelete chains on claims and permanodes, delivered out of date order; a reference claim-folding model written from doc/schema/{permanode,delete}.md is compared with: corpus built incrementally, corpus loaded from rows, index rows without corpus (AppendClaims membership, IsDeleted), search Describe(At) and Query(PermanodeConstraint{Attr,Value,At}) at times before/between/exactly-at/after the claim dates and zero, with and without signer filter; distinct = (world, permanode, attr, time, signer, path); non-trivial = the permanode has at least 2 claims on the attribute or a deleted claim",
+		"generated permanodes with 1-14 set/add/del claims (multi-valued, repeated values, values and attribute NAMES needing escaping, two signers, sub-second dates, two claims inside one second, equal dates on different attributes, one pre-1970 date) and delete/undelete chains on claims and permanodes (incl. two deleters of one target), delivered out of date order; a reference claim-folding model written from doc/schema/{permanode,delete}.md is compared with: corpus built incrementally, corpus loaded from rows (AppendPermanodeAttrValues, PermanodeAttrValue, PermanodeHasAttrValue, PermanodeModtime, IsDeleted), index rows with and without corpus (AppendClaims membership, claim fields, attrFilter, and the claims folded by the harness at every T; IsDeleted; PathLookup/PathsLookup/PathsOfSignerTarget for camliPath attributes), search Describe(At) and Query (PermanodeConstraint Attr+Value, NumValue, ValueInSet, Relation child/parent, SkipHidden; all with At) at times before/between/exactly-at/after the claim dates and zero, with and without signer filter; distinct = (world, permanode, attr, time, signer, path); non-trivial = the permanode has at least 2 claims on the attribute or a deleted claim",
 		run)
 }
 
@@ -68,11 +71,14 @@ type path struct {
 func run(r *ev.Run) {
 	log.SetOutput(io.Discard)
 	index.SetVerboseCorpusLogging(false)
-	r.Assume("values are compared as ordered lists of distinct non-empty values (the docs do not say whether add-attribute of an existing value duplicates it, nor what an empty set/add value means; the generator emits no empty set/add values)")
-	r.Assume("claim dates are distinct within a world; 'as of T' includes claims dated exactly T")
+	r.Assume("values are compared as ordered lists of distinct non-empty values (the docs do not say whether add-attribute of an existing value duplicates it, nor what an empty set/add value means; the generator emits no empty set/add values); numValue is judged only where the folded list has no repeated value")
+	r.Assume("claim dates are distinct among the claims of one (permanode, attribute); equal dates are generated only across different attributes; 'as of T' includes claims dated exactly T")
 	r.Assume("deletion is not time-scoped: a deleted claim is ignored at every T (doc/schema/delete.md gives no other reading)")
+	r.Assume("T = zero means 'no upper bound'; no claim is dated in the future, so this coincides with 'now'")
+	r.Assume("relation constraints and PermanodeHasAttrValue take no signer: they are judged against the fold over the claims of all signers")
 	nWorlds := r.Pick(300, 3000)
 	wrng := r.Rand("worlds")
+	xrng := r.Rand("c07extra")
 	type job struct {
 		w   *hw.World
 		wid string
@@ -101,6 +107,19 @@ func run(r *ev.Run) {
 			wo.PlainAttrsOnly = true
 		}
 		w := hw.GenWorld(wrng, wo)
+		// directed patterns on top of the random world (own PRNG stream: the base worlds stay what they were)
+		xseed := xrng.Int63()
+		hw.ExtendC07(w, rand.New(rand.NewSource(xseed)), hw.C07Extra{
+			EscapedAttrs:   i%3 == 0,
+			RepeatedValues: i%4 == 1,
+			SameSecond:     i%5 == 2,
+			CrossAttrTie:   i%6 == 3,
+			DefVis:         i%5 == 4,
+			TwoDeleters:    i%7 == 5,
+			Pre1970:        i%11 == 6,
+			PathChain:      i%4 == 2,
+			ExtraDeletes:   []int{0, 0, 1, 2}[i%4],
+		})
 		wid := fmt.Sprintf("world%d;", i)
 		ord := rand.New(rand.NewSource(wrng.Int63())).Perm(len(w.Blobs))
 		if !r.Only(wid) {
@@ -113,10 +132,128 @@ func run(r *ev.Run) {
 	}
 	close(jobs)
 	wg.Wait()
-	r.Require("world_features", "claim-set-attribute", "claim-add-attribute", "claim-del-attribute", "delete-of-claim", "delete-of-delete", "delete-of-permanode", "two-signers", "subsecond-date", "foreign-signer-claim")
-	r.Require("paths", "corpus-live", "corpus-loaded", "index-rows", "describe-classic", "describe-corpus-live", "describe-corpus-loaded", "query-corpus-live", "query-corpus-loaded")
+	r.Require("world_features", "claim-set-attribute", "claim-add-attribute", "claim-del-attribute", "delete-of-claim", "delete-of-delete", "delete-of-permanode", "two-signers", "subsecond-date", "foreign-signer-claim",
+		"c07-escaped-attr-name", "c07-repeated-value-del", "c07-same-second-pair", "c07-cross-attr-date-tie", "c07-defvis-history", "c07-two-deleters", "c07-pre-1970-claim", "c07-path-chain")
+	r.Require("paths", "corpus-live", "corpus-loaded", "index-rows", "describe-classic", "describe-corpus-live", "describe-corpus-loaded", "query-corpus-live", "query-corpus-loaded",
+		"attr-value-corpus-live", "attr-value-corpus-loaded", "has-attr-value-corpus-live", "has-attr-value-corpus-loaded",
+		"claims-fold-classic", "claims-fold-corpus-live", "claims-fold-corpus-loaded", "claims-content", "claims-attrfilter",
+		"query-classic", "query-numvalue-corpus-live", "query-numvalue-corpus-loaded", "query-valueinset-corpus-live", "query-valueinset-corpus-loaded",
+		"query-relation-child-corpus-live", "query-relation-child-corpus-loaded", "query-relation-parent-corpus-live", "query-relation-parent-corpus-loaded",
+		"query-skiphidden-corpus-live", "query-skiphidden-corpus-loaded", "modtime-corpus-live", "modtime-corpus-loaded")
 	r.Require("time_classes", "zero", "before-all", "between", "exactly-at", "after-all")
-	r.Require("moments", "deleted-claim-present", "undeleted-claim-present", "out-of-order-delivery")
+	r.Require("moments", "deleted-claim-present", "undeleted-claim-present", "out-of-order-delivery",
+		"historical-T-with-deleted-claim", "numvalue-judged", "relation-with-deleted-edge-claim", "escaped-attr-filter")
+}
+
+// wc is the state of one world check.
+type wc struct {
+	r     *ev.Run
+	w     *hw.World
+	wid   string
+	ord   []int
+	paths []path
+	ctx   context.Context
+	byRef map[blob.Ref]hw.ClaimInfo
+}
+
+func (c *wc) rec(q string, want, got any) caseRec {
+	return caseRec{CaseID: c.wid, World: c.w.Describe(), Claims: claimList(c.w), Order: c.ord, Query: q, Want: want, Got: got}
+}
+
+func norm(v []string) []string {
+	if len(v) == 0 {
+		return nil
+	}
+	return v
+}
+
+// verdict compares got with the model's answer want.  alt is what the model gives when claim
+// deletions are NOT honoured; an answer that differs from want and equals alt is classified as
+// the (known) defect class "deleted-claim-ignored".  site is the exact query path: it is the
+// suffix of the signature, and every site at which the class was observed is listed in the
+// evidence (observed.deleted_claim_ignored_sites).
+func (c *wc) verdict(site, q string, want, alt, got any) bool {
+	c.r.Eval(1)
+	c.r.Note("paths", site)
+	if reflect.DeepEqual(got, want) {
+		return true
+	}
+	class := "mismatch"
+	if !reflect.DeepEqual(want, alt) && reflect.DeepEqual(got, alt) {
+		class = "deleted-claim-ignored" // answer = what folding WITHOUT honouring claim deletions gives
+		c.r.Note("deleted_claim_ignored_sites", site)
+	}
+	c.r.Violation(class+"/"+site, fmt.Sprintf("%s: %s via %s = %q, model says %q", c.wid, q, site, got, want), c.rec(q+" via "+site, want, got))
+	return false
+}
+
+func first(v []string) string {
+	if len(v) > 0 {
+		return v[0]
+	}
+	return ""
+}
+
+func clean(v []string) bool {
+	seen := map[string]bool{}
+	for _, x := range v {
+		if x == "" || seen[x] {
+			return false
+		}
+		seen[x] = true
+	}
+	return true
+}
+
+// foldClaims is the harness's own fold of claims returned by AppendClaims (any order) for attr as of at.
+func foldClaims(cl []camtypes.Claim, attr string, at time.Time) []string {
+	cs := make([]camtypes.Claim, 0, len(cl))
+	for _, c := range cl {
+		if c.Attr != attr || (!at.IsZero() && c.Date.After(at)) {
+			continue
+		}
+		cs = append(cs, c)
+	}
+	sort.SliceStable(cs, func(i, j int) bool { return cs[i].Date.Before(cs[j].Date) })
+	var v []string
+	for _, c := range cs {
+		switch c.Type {
+		case hw.Set:
+			v = []string{c.Value}
+		case hw.Add:
+			v = append(v, c.Value)
+		case hw.Del:
+			if c.Value == "" {
+				v = nil
+			} else {
+				var nv []string
+				for _, x := range v {
+					if x != c.Value {
+						nv = append(nv, x)
+					}
+				}
+				v = nv
+			}
+		}
+	}
+	return v
+}
+
+func isEdgeAttr(attr string) bool {
+	return attr == "camliMember" || strings.HasPrefix(attr, "camliPath:")
+}
+
+func (c *wc) queryHits(p path, pc *search.PermanodeConstraint, sortType search.SortType) (map[blob.Ref]bool, error) {
+	sq := &search.SearchQuery{Constraint: &search.Constraint{Permanode: pc}, Limit: -1, Sort: sortType}
+	res, err := p.sh.Query(c.ctx, sq)
+	if err != nil {
+		return nil, err
+	}
+	hits := map[blob.Ref]bool{}
+	for _, b := range res.Blobs {
+		hits[b.Blob] = true
+	}
+	return hits, nil
 }
 
 func checkWorld(r *ev.Run, w *hw.World, wid string, ord []int, smu *sync.Mutex, sampled *int) {
@@ -161,9 +298,11 @@ func checkWorld(r *ev.Run, w *hw.World, wid string, ord []int, smu *sync.Mutex, 
 	for _, p := range paths[:2] {
 		p.sh.SetCorpus(p.corpus)
 	}
-	rec := func(q string, want, got any) caseRec {
-		return caseRec{CaseID: wid, World: w.Describe(), Claims: claimList(w), Order: ord, Query: q, Want: want, Got: got}
+	c := &wc{r: r, w: w, wid: wid, ord: ord, paths: paths, ctx: ctx, byRef: map[blob.Ref]hw.ClaimInfo{}}
+	for _, ci := range w.Claims {
+		c.byRef[ci.Ref] = ci
 	}
+	rec := c.rec
 
 	// deletion status, every ref
 	anyDeletedClaim, anyUndeleted := false, false
@@ -205,49 +344,18 @@ func checkWorld(r *ev.Run, w *hw.World, wid string, ord []int, smu *sync.Mutex, 
 		r.Note("moments", "undeleted-claim-present")
 	}
 
-	signerIDs := []struct {
+	type signerSel struct {
 		id  string
 		num int
-	}{{"", 0}, {w.Signers[0].KeyID, 1}}
+	}
+	signerIDs := []signerSel{{"", 0}, {w.Signers[0].KeyID, 1}}
 	if len(w.Signers) > 1 {
-		signerIDs = append(signerIDs, struct {
-			id  string
-			num int
-		}{w.Signers[1].KeyID, 2})
+		signerIDs = append(signerIDs, signerSel{w.Signers[1].KeyID, 2})
 	}
 
 	for _, pn := range w.Permanodes {
-		// index rows: AppendClaims membership = non-deleted attribute claims (per signer filter)
-		for _, sg := range signerIDs {
-			var want []string
-			for _, c := range w.Claims {
-				if c.Kind != "delete" && c.PN == pn && (sg.num == 0 || c.Signer == sg.num) && !w.Deleted(c.Ref) {
-					want = append(want, c.Ref.String())
-				}
-			}
-			sort.Strings(want)
-			for _, p := range paths {
-				cl, err := p.ix.AppendClaims(ctx, nil, pn, sg.id, "")
-				var got []string
-				for _, c := range cl {
-					if c.Type == "set-attribute" || c.Type == "add-attribute" || c.Type == "del-attribute" {
-						got = append(got, c.BlobRef.String())
-					}
-				}
-				sort.Strings(got)
-				r.Eval(1)
-				r.Note("paths", "index-rows")
-				if err != nil || !reflect.DeepEqual(want, got) {
-					r.Violation("append-claims/"+p.name, fmt.Sprintf("%s: AppendClaims(pn %s, signer %q) attribute claims = %d refs (err %v), model says %d non-deleted claims", wid, short(pn), sg.id, len(got), err, len(want)),
-						rec(fmt.Sprintf("AppendClaims %s signer=%q", pn, sg.id), want, got))
-				}
-			}
-		}
 		dates := w.ClaimDates(pn)
-		type tc struct {
-			t     time.Time
-			class string
-		}
+		type tc = timeCase
 		times := []tc{{time.Time{}, "zero"}}
 		if len(dates) > 0 {
 			times = append(times, tc{dates[0].Add(-time.Minute), "before-all"}, tc{dates[len(dates)-1].Add(time.Minute), "after-all"})
@@ -256,38 +364,159 @@ func checkWorld(r *ev.Run, w *hw.World, wid string, ord []int, smu *sync.Mutex, 
 					continue
 				}
 				times = append(times, tc{d, "exactly-at"})
-				if i+1 < len(dates) {
+				if i+1 < len(dates) && dates[i+1].After(d) {
 					times = append(times, tc{d.Add(dates[i+1].Sub(d) / 2), "between"})
 				}
 			}
 		}
-		for _, attr := range w.AttrNames(pn) {
+		attrs := w.AttrNames(pn)
+		pnHasDeletedClaim := false
+		for _, ci := range w.Claims {
+			if ci.Kind != "delete" && ci.PN == pn && w.Deleted(ci.Ref) {
+				pnHasDeletedClaim = true
+			}
+		}
+
+		// index rows: AppendClaims membership = non-deleted attribute claims (per signer filter);
+		// fields of every returned claim; attrFilter; and the returned claims folded at every T
+		for _, sg := range signerIDs {
+			var want []string
+			for _, ci := range w.Claims {
+				if ci.Kind != "delete" && ci.PN == pn && (sg.num == 0 || ci.Signer == sg.num) && !w.Deleted(ci.Ref) {
+					want = append(want, ci.Ref.String())
+				}
+			}
+			sort.Strings(want)
+			for _, p := range paths {
+				cl, err := p.ix.AppendClaims(ctx, nil, pn, sg.id, "")
+				var got []string
+				var attrClaims []camtypes.Claim
+				for _, x := range cl {
+					if x.Type == "set-attribute" || x.Type == "add-attribute" || x.Type == "del-attribute" {
+						got = append(got, x.BlobRef.String())
+						attrClaims = append(attrClaims, x)
+					}
+				}
+				sort.Strings(got)
+				r.Eval(1)
+				r.Note("paths", "index-rows")
+				if err != nil || !reflect.DeepEqual(want, got) {
+					r.Violation("append-claims/"+p.name, fmt.Sprintf("%s: AppendClaims(pn %s, signer %q) attribute claims = %d refs (err %v), model says %d non-deleted claims", wid, short(pn), sg.id, len(got), err, len(want)),
+						rec(fmt.Sprintf("AppendClaims %s signer=%q", pn, sg.id), want, got))
+					continue
+				}
+				// claim fields: what a caller folding these claims relies on
+				for _, x := range attrClaims {
+					ci, ok := c.byRef[x.BlobRef]
+					r.Eval(1)
+					r.Note("paths", "claims-content")
+					if !ok {
+						continue // membership mismatch, reported above
+					}
+					var bad []string
+					if x.Type != ci.Kind {
+						bad = append(bad, fmt.Sprintf("Type=%q want %q", x.Type, ci.Kind))
+					}
+					if x.Attr != ci.Attr {
+						bad = append(bad, fmt.Sprintf("Attr=%q want %q", x.Attr, ci.Attr))
+					}
+					if x.Value != ci.Value {
+						bad = append(bad, fmt.Sprintf("Value=%q want %q", x.Value, ci.Value))
+					}
+					if !x.Date.Equal(ci.Date) {
+						bad = append(bad, fmt.Sprintf("Date=%s want %s", x.Date.Format(time.RFC3339Nano), ci.Date.Format(time.RFC3339Nano)))
+					}
+					if x.Permanode != pn {
+						bad = append(bad, fmt.Sprintf("Permanode=%s want %s", x.Permanode, pn))
+					}
+					if x.Signer != w.Signers[ci.Signer-1].PubRef {
+						bad = append(bad, fmt.Sprintf("Signer=%s want %s", x.Signer, w.Signers[ci.Signer-1].PubRef))
+					}
+					if len(bad) > 0 {
+						r.Violation("append-claims-content/"+p.name, fmt.Sprintf("%s: AppendClaims(pn %s, signer %q) returns claim %s with %s", wid, short(pn), sg.id, short(x.BlobRef), strings.Join(bad, "; ")),
+							rec(fmt.Sprintf("AppendClaims %s signer=%q claim %s", pn, sg.id, x.BlobRef), fmt.Sprint(ci), fmt.Sprint(x)))
+					}
+				}
+				for _, attr := range attrs {
+					// attrFilter must select exactly the claims on attr
+					fl, err := p.ix.AppendClaims(ctx, nil, pn, sg.id, attr)
+					var wantF, gotF []string
+					for _, x := range attrClaims {
+						if x.Attr == attr {
+							wantF = append(wantF, x.BlobRef.String())
+						}
+					}
+					for _, x := range fl {
+						if x.Type != "delete" {
+							gotF = append(gotF, x.BlobRef.String())
+						}
+					}
+					sort.Strings(wantF)
+					sort.Strings(gotF)
+					r.Eval(1)
+					r.Note("paths", "claims-attrfilter")
+					if attr != strings.ToLower(attr) || strings.ContainsAny(attr, " |%?&=ü") {
+						r.Note("moments", "escaped-attr-filter")
+					}
+					if err != nil || !reflect.DeepEqual(wantF, gotF) {
+						r.Violation("append-claims-attrfilter/"+p.name, fmt.Sprintf("%s: AppendClaims(pn %s, signer %q, attrFilter %q) = %d claims (err %v), the unfiltered call has %d on that attribute", wid, short(pn), sg.id, attr, len(gotF), err, len(wantF)),
+							rec(fmt.Sprintf("AppendClaims %s signer=%q attrFilter=%q", pn, sg.id, attr), wantF, gotF))
+					}
+					// the rows folded by the caller, present and historical
+					for _, t := range times {
+						want := w.Values(pn, attr, t.t, sg.num, true)
+						alt := w.Values(pn, attr, t.t, sg.num, false)
+						q := fmt.Sprintf("fold of AppendClaims(pn=%s, signer=%q) for attr=%q at=%s[%s]", pn, sg.id, attr, t.t.Format(time.RFC3339Nano), t.class)
+						c.verdict("claims-fold-"+p.name, q, want, alt, norm(hw.Canon(foldClaims(attrClaims, attr, t.t))))
+					}
+				}
+			}
+		}
+
+		// PermanodeModtime: latest date of a non-deleted attribute claim (doc comment of Corpus.PermanodeModtime, doc/schema/delete.md)
+		{
+			var want time.Time
+			for _, ci := range w.Claims {
+				if ci.Kind != "delete" && ci.PN == pn && !w.Deleted(ci.Ref) && ci.Date.After(want) {
+					want = ci.Date
+				}
+			}
+			for _, p := range paths[:2] {
+				p.ix.RLock()
+				got, ok := p.corpus.PermanodeModtime(pn)
+				p.ix.RUnlock()
+				r.Eval(1)
+				r.Note("paths", "modtime-"+p.name)
+				if ok != !want.IsZero() || (ok && !got.Equal(want)) {
+					r.Violation("modtime/"+p.name, fmt.Sprintf("%s: PermanodeModtime(%s) = %s,%v; the latest non-deleted attribute claim is dated %s", wid, short(pn), got.Format(time.RFC3339Nano), ok, want.Format(time.RFC3339Nano)),
+						rec("PermanodeModtime "+pn.String(), want.Format(time.RFC3339Nano), got.Format(time.RFC3339Nano)))
+				}
+			}
+		}
+
+		for _, attr := range attrs {
 			nOn := 0
-			for _, c := range w.Claims {
-				if c.PN == pn && c.Attr == attr {
+			for _, ci := range w.Claims {
+				if ci.PN == pn && ci.Attr == attr {
 					nOn++
 				}
 			}
 			for _, t := range times {
 				r.Note("time_classes", t.class)
+				if pnHasDeletedClaim && !t.t.IsZero() && t.t.Before(dates[len(dates)-1]) {
+					r.Note("moments", "historical-T-with-deleted-claim")
+				}
 				for _, sg := range signerIDs {
 					want := w.Values(pn, attr, t.t, sg.num, true)
 					alt := w.Values(pn, attr, t.t, sg.num, false)
+					wantList := w.ValuesList(pn, attr, t.t, sg.num, true)
+					altList := w.ValuesList(pn, attr, t.t, sg.num, false)
 					q := fmt.Sprintf("values(pn=%s, attr=%q, at=%s[%s], signer=%q)", pn, attr, t.t.Format(time.RFC3339Nano), t.class, sg.id)
 					judge := func(pathName string, got []string) {
-						r.Eval(1)
-						r.Note("paths", pathName)
 						if nOn >= 2 || anyDeletedClaim {
 							r.Distinct(wid + q + pathName)
 						}
-						if reflect.DeepEqual(hw.Canon(got), want) {
-							return
-						}
-						class := "mismatch"
-						if !reflect.DeepEqual(want, alt) && reflect.DeepEqual(hw.Canon(got), alt) {
-							class = "deleted-claim-ignored" // answer = what folding WITHOUT honouring claim deletions gives
-						}
-						r.Violation(class+"/"+pathName, fmt.Sprintf("%s: %s via %s = %q, model says %q", wid, q, pathName, got, want), rec(q+" via "+pathName, want, got))
+						c.verdict(pathName, q, want, alt, norm(hw.Canon(got)))
 					}
 					for _, p := range paths[:2] {
 						p.ix.RLock()
@@ -295,88 +524,440 @@ func checkWorld(r *ev.Run, w *hw.World, wid string, ord []int, smu *sync.Mutex, 
 						v1 := p.corpus.PermanodeAttrValue(pn, attr, t.t, sg.id)
 						p.ix.RUnlock()
 						judge(p.name, vs)
-						first := ""
-						if len(vs) > 0 {
-							first = vs[0]
-						}
-						if v1 != first {
+						if v1 != first(vs) {
 							r.Violation("attr-value-vs-values/"+p.name, fmt.Sprintf("%s: %s: PermanodeAttrValue=%q but AppendPermanodeAttrValues=%q", wid, q, v1, vs), rec(q, vs, v1))
 						}
-						if sg.num == 0 && !t.t.IsZero() {
-							for _, val := range append(append([]string{}, want...), "verif-absent-value") {
+						// the single-value accessor against the model itself
+						c.verdict("attr-value-"+p.name, q+" PermanodeAttrValue", first(wantList), first(altList), v1)
+						if sg.num == 0 {
+							for _, val := range append(append(append([]string{}, want...), alt...), "verif-absent-value") {
 								p.ix.RLock()
 								has := p.corpus.PermanodeHasAttrValue(pn, t.t, attr, val)
 								p.ix.RUnlock()
-								wantHas := contains(want, val)
-								r.Eval(1)
-								if has != wantHas {
-									class := "mismatch"
-									if contains(alt, val) == has {
-										class = "deleted-claim-ignored"
-									}
-									r.Violation(class+"/has-attr-value-"+p.name, fmt.Sprintf("%s: PermanodeHasAttrValue(%s,%q=%q at %s)=%v, model %v", wid, short(pn), attr, val, t.class, has, wantHas), rec(q+" has "+val, wantHas, has))
-								}
+								c.verdict("has-attr-value-"+p.name, fmt.Sprintf("%s PermanodeHasAttrValue(%q)", q, val), contains(want, val), contains(alt, val), has)
 							}
 						}
 					}
 					// describe and query: owner = signer 1
-					if sg.num == 1 {
-						for _, p := range paths {
-							if p.corpus == nil && !t.t.IsZero() {
-								continue // classic mode documents no support for At
+					if sg.num != 1 {
+						continue
+					}
+					for _, p := range paths {
+						if p.corpus == nil && !t.t.IsZero() {
+							continue // classic mode documents no support for At
+						}
+						dr := &search.DescribeRequest{BlobRef: pn, Depth: 1}
+						if !t.t.IsZero() {
+							dr.At = types.Time3339(t.t)
+						}
+						res, err := p.sh.Describe(ctx, dr)
+						if err != nil || res == nil || res.Meta[pn.String()] == nil || res.Meta[pn.String()].Permanode == nil {
+							r.Violation("describe-error/"+p.name, fmt.Sprintf("%s: Describe(%s at %s): err=%v", wid, short(pn), t.class, err), rec(q, nil, fmt.Sprint(err)))
+							continue
+						}
+						got := []string(res.Meta[pn.String()].Permanode.Attr[attr])
+						judge("describe-"+p.name, got)
+					}
+					if w.Deleted(pn) {
+						continue // whether searches list deleted permanodes is C08's subject
+					}
+					for _, p := range paths {
+						if p.corpus == nil && !t.t.IsZero() {
+							continue // PermanodeConstraint.At needs a corpus (documented by a panic message)
+						}
+						site := "query-" + p.name
+						vals := append(append([]string{}, want...), alt...)
+						for _, val := range vals {
+							sortType := search.UnspecifiedSort
+							if p.corpus == nil {
+								sortType = search.Unsorted // sorting is documented as unsupported without a corpus
 							}
-							dr := &search.DescribeRequest{BlobRef: pn, Depth: 1}
-							if !t.t.IsZero() {
-								dr.At = types.Time3339(t.t)
-							}
-							res, err := p.sh.Describe(ctx, dr)
-							if err != nil || res == nil || res.Meta[pn.String()] == nil || res.Meta[pn.String()].Permanode == nil {
-								r.Violation("describe-error/"+p.name, fmt.Sprintf("%s: Describe(%s at %s): err=%v", wid, short(pn), t.class, err), rec(q, nil, fmt.Sprint(err)))
+							hits, err := c.queryHits(p, &search.PermanodeConstraint{Attr: attr, Value: val, At: t.t}, sortType)
+							if err != nil {
+								r.Violation("query-error/"+p.name, fmt.Sprintf("%s: Query(attr %q=%q at %s): %v", wid, attr, val, t.class, err), rec(q, nil, err.Error()))
 								continue
 							}
-							got := []string(res.Meta[pn.String()].Permanode.Attr[attr])
-							judge("describe-"+p.name, got)
+							c.verdict(site, fmt.Sprintf("%s Query(permanode attr value %q) contains pn", q, val), contains(want, val), contains(alt, val), hits[pn])
 						}
-						for _, p := range paths[:2] {
-							if w.Deleted(pn) {
-								break // whether searches list deleted permanodes is C08's subject
+						if p.corpus == nil {
+							continue
+						}
+						// value given as a sub-query (valueInSet) for reference values
+						for _, val := range vals {
+							if _, ok := blob.Parse(val); !ok {
+								continue
 							}
-							for _, val := range append(append([]string{}, want...), alt...) {
-								sq := &search.SearchQuery{Constraint: &search.Constraint{Permanode: &search.PermanodeConstraint{Attr: attr, Value: val, At: t.t}}, Limit: -1}
-								res, err := p.sh.Query(ctx, sq)
+							hits, err := c.queryHits(p, &search.PermanodeConstraint{Attr: attr, ValueInSet: &search.Constraint{BlobRefPrefix: val}, At: t.t}, search.Unsorted)
+							if err != nil {
+								r.Violation("query-error/"+p.name, fmt.Sprintf("%s: Query(attr %q valueInSet %q at %s): %v", wid, attr, val, t.class, err), rec(q, nil, err.Error()))
+								continue
+							}
+							c.verdict("query-valueinset-"+p.name, fmt.Sprintf("%s Query(permanode attr valueInSet blobRefPrefix %q) contains pn", q, val), contains(want, val), contains(alt, val), hits[pn])
+						}
+						// number of values; only where neither reading of "repeated value" matters
+						if clean(wantList) && clean(altList) {
+							ns := map[int]bool{len(wantList): true, len(altList): true, len(wantList) + 1: true}
+							for n := range ns {
+								nv := &search.IntConstraint{Min: int64(n), Max: int64(n)}
+								if n == 0 {
+									nv = &search.IntConstraint{ZeroMax: true}
+								}
+								hits, err := c.queryHits(p, &search.PermanodeConstraint{Attr: attr, NumValue: nv, At: t.t}, search.Unsorted)
 								if err != nil {
-									r.Violation("query-error/"+p.name, fmt.Sprintf("%s: Query(attr %q=%q at %s): %v", wid, attr, val, t.class, err), rec(q, nil, err.Error()))
+									r.Violation("query-error/"+p.name, fmt.Sprintf("%s: Query(attr %q numValue %d at %s): %v", wid, attr, n, t.class, err), rec(q, nil, err.Error()))
 									continue
 								}
-								got := false
-								for _, b := range res.Blobs {
-									if b.Blob == pn {
-										got = true
-									}
-								}
-								wantHit := contains(want, val)
-								r.Eval(1)
-								r.Note("paths", "query-"+p.name)
-								if got != wantHit {
-									class := "mismatch"
-									if contains(alt, val) == got {
-										class = "deleted-claim-ignored"
-									}
-									r.Violation(class+"/query-"+p.name, fmt.Sprintf("%s: Query(permanode attr %q value %q at %s[%s]) contains pn %s = %v, model says %v", wid, attr, val, t.t.Format(time.RFC3339Nano), t.class, short(pn), got, wantHit), rec(q+" query value "+val, wantHit, got))
-								}
+								r.Note("moments", "numvalue-judged")
+								c.verdict("query-numvalue-"+p.name, fmt.Sprintf("%s Query(permanode attr numValue=%d) contains pn", q, n), len(wantList) == n, len(altList) == n, hits[pn])
 							}
 						}
 					}
 				}
 			}
 		}
+
+		// relations and visibility at T (edge attributes: camliMember, camliPath:*), all signers folded
+		edgeVals := func(t time.Time, honor bool) map[string]bool {
+			m := map[string]bool{}
+			for _, attr := range attrs {
+				if !isEdgeAttr(attr) {
+					continue
+				}
+				for _, v := range w.Values(pn, attr, t, 0, honor) {
+					if _, ok := blob.Parse(v); ok {
+						m[v] = true
+					}
+				}
+			}
+			return m
+		}
+		hasEdges, hasDefVis := false, false
+		for _, a := range attrs {
+			if isEdgeAttr(a) {
+				hasEdges = true
+			}
+			if a == "camliDefVis" {
+				hasDefVis = true
+			}
+		}
+		if !w.Deleted(pn) {
+			for _, t := range times {
+				if hasEdges {
+					wantSet, altSet := edgeVals(t.t, true), edgeVals(t.t, false)
+					if !reflect.DeepEqual(wantSet, altSet) {
+						r.Note("moments", "relation-with-deleted-edge-claim")
+					}
+					cands := map[string]bool{}
+					for v := range wantSet {
+						cands[v] = true
+					}
+					for v := range altSet {
+						cands[v] = true
+					}
+					for _, other := range w.Permanodes {
+						if !cands[other.String()] {
+							cands[other.String()] = true // a permanode that is no child at T
+							break
+						}
+					}
+					q := fmt.Sprintf("children(pn=%s, at=%s[%s])", pn, t.t.Format(time.RFC3339Nano), t.class)
+					for _, p := range paths[:2] {
+						for v := range cands {
+							hits, err := c.queryHits(p, &search.PermanodeConstraint{At: t.t, Relation: &search.RelationConstraint{Relation: "child", Any: &search.Constraint{BlobRefPrefix: v}}}, search.Unsorted)
+							if err != nil {
+								r.Violation("query-error/"+p.name, fmt.Sprintf("%s: Query(relation child %s at %s): %v", wid, v, t.class, err), rec(q, nil, err.Error()))
+								continue
+							}
+							c.verdict("query-relation-child-"+p.name, fmt.Sprintf("%s Query(permanode relation child any blobRefPrefix %s) contains pn", q, v), wantSet[v], altSet[v], hits[pn])
+						}
+						// pn as the parent: the result is the set of its (non-deleted) children at T
+						hits, err := c.queryHits(p, &search.PermanodeConstraint{At: t.t, Relation: &search.RelationConstraint{Relation: "parent", Any: &search.Constraint{BlobRefPrefix: pn.String()}}}, search.Unsorted)
+						if err != nil {
+							r.Violation("query-error/"+p.name, fmt.Sprintf("%s: Query(relation parent %s at %s): %v", wid, pn, t.class, err), rec(q, nil, err.Error()))
+							continue
+						}
+						var wantC, altC, gotC []string
+						for _, x := range w.Permanodes {
+							if w.Deleted(x) {
+								continue
+							}
+							if wantSet[x.String()] {
+								wantC = append(wantC, x.String())
+							}
+							if altSet[x.String()] {
+								altC = append(altC, x.String())
+							}
+							if hits[x] {
+								gotC = append(gotC, x.String())
+							}
+						}
+						c.verdict("query-relation-parent-"+p.name, fmt.Sprintf("%s Query(permanode relation parent any blobRefPrefix pn) = non-deleted children", q), wantC, altC, gotC)
+					}
+				}
+				if hasDefVis {
+					wantHidden := first(w.ValuesList(pn, "camliDefVis", t.t, 1, true)) == "hide"
+					altHidden := first(w.ValuesList(pn, "camliDefVis", t.t, 1, false)) == "hide"
+					q := fmt.Sprintf("visible(pn=%s, at=%s[%s])", pn, t.t.Format(time.RFC3339Nano), t.class)
+					for _, p := range paths[:2] {
+						hits, err := c.queryHits(p, &search.PermanodeConstraint{At: t.t, SkipHidden: true}, search.Unsorted)
+						if err != nil {
+							r.Violation("query-error/"+p.name, fmt.Sprintf("%s: Query(skipHidden at %s): %v", wid, t.class, err), rec(q, nil, err.Error()))
+							continue
+						}
+						c.verdict("query-skiphidden-"+p.name, q+" Query(permanode skipHidden) contains pn", !wantHidden, !altHidden, hits[pn])
+					}
+				}
+			}
+		}
+		c.checkPathRows(pn, attrs, times)
 	}
+	c.checkPathsOfTarget()
 	smu.Lock()
 	if *sampled < 4 && len(w.Claims) > 3 {
 		*sampled++
 		r.Sample(map[string]any{"world": w.Describe(), "claims": claimList(w), "delivery_order": ord})
 	}
 	smu.Unlock()
+}
+
+type timeCase struct {
+	t     time.Time
+	class string
+}
+
+// checkPathRows judges the camliPath index rows (path forward rows) of one permanode against the
+// model: PathsLookup lists exactly rows of non-deleted claims, PathLookup(at) gives the attribute's
+// value as of at.
+func (c *wc) checkPathRows(pn blob.Ref, attrs []string, times []timeCase) {
+	w, r := c.w, c.r
+	for _, attr := range attrs {
+		if !strings.HasPrefix(attr, "camliPath:") {
+			continue
+		}
+		suffix := strings.TrimPrefix(attr, "camliPath:")
+		for si := 1; si <= len(w.Signers); si++ {
+			signer := w.Signers[si-1]
+			var hist []hw.ClaimInfo // this signer's non-deleted claims on attr
+			skip := false
+			for _, ci := range w.Claims {
+				if ci.Kind == "delete" || ci.PN != pn || ci.Attr != attr || ci.Signer != si {
+					continue
+				}
+				if ci.Value != "" {
+					ref, ok := blob.Parse(ci.Value)
+					if !ok || w.Deleted(ref) {
+						skip = true // no row for a non-reference value; whether a path to a deleted target is listed is not stated
+					}
+				}
+				if !w.Deleted(ci.Ref) {
+					hist = append(hist, ci)
+				}
+			}
+			if skip {
+				continue
+			}
+			sort.SliceStable(hist, func(i, j int) bool { return hist[i].Date.Before(hist[j].Date) })
+			preEpoch := false
+			for _, h := range hist {
+				if h.Date.Unix() < 0 {
+					preEpoch = true
+				}
+			}
+			for _, p := range c.paths {
+				// rows listed
+				ps, err := p.ix.PathsLookup(c.ctx, signer.PubRef, pn, suffix)
+				r.Eval(1)
+				r.Note("paths", "paths-lookup-"+p.name)
+				q := fmt.Sprintf("PathsLookup(signer s%d, base %s, suffix %q)", si, pn, suffix)
+				if err != nil {
+					r.Violation("mismatch/paths-lookup-"+p.name, fmt.Sprintf("%s: %s: %v", c.wid, q, err), c.rec(q, nil, err.Error()))
+					continue
+				}
+				listed := map[blob.Ref]bool{}
+				for _, x := range ps {
+					listed[x.Claim] = true
+					ci, ok := c.byRef[x.Claim]
+					var bad string
+					switch {
+					case !ok || ci.PN != pn || ci.Attr != attr || ci.Signer != si:
+						bad = "is not a claim of that signer on that attribute"
+					case w.Deleted(x.Claim):
+						bad = "is a deleted claim"
+					case x.Target.String() != ci.Value:
+						bad = fmt.Sprintf("has target %s, the claim's value is %s", x.Target, ci.Value)
+					case x.Base != pn || x.Suffix != suffix:
+						bad = fmt.Sprintf("has base %s suffix %q", x.Base, x.Suffix)
+					case x.ClaimDate.Unix() != ci.Date.Unix():
+						bad = fmt.Sprintf("has claim date %s, the claim says %s", x.ClaimDate.Format(time.RFC3339Nano), ci.Date.Format(time.RFC3339Nano))
+					}
+					if bad != "" {
+						class := "mismatch"
+						if ok && w.Deleted(x.Claim) {
+							class = "deleted-claim-ignored"
+							r.Note("deleted_claim_ignored_sites", "paths-lookup-"+p.name)
+						}
+						r.Violation(class+"/paths-lookup-"+p.name, fmt.Sprintf("%s: %s lists claim %s which %s", c.wid, q, short(x.Claim), bad), c.rec(q, nil, fmt.Sprint(*x)))
+					}
+				}
+				for _, h := range hist {
+					if h.Kind != hw.Del && !listed[h.Ref] {
+						r.Violation("mismatch/paths-lookup-"+p.name, fmt.Sprintf("%s: %s does not list the non-deleted %s claim %s", c.wid, q, h.Kind, short(h.Ref)), c.rec(q, h.Ref.String(), len(ps)))
+					}
+				}
+				// value as of T
+				for _, t := range times {
+					want := first(w.ValuesList(pn, attr, t.t, si, true))
+					alt := first(w.ValuesList(pn, attr, t.t, si, false))
+					q := fmt.Sprintf("PathLookup(signer s%d, base %s, suffix %q, at=%s[%s])", si, pn, suffix, t.t.Format(time.RFC3339Nano), t.class)
+					path, err := p.ix.PathLookup(c.ctx, signer.PubRef, pn, suffix, t.t)
+					got := ""
+					switch {
+					case err == nil && path != nil:
+						got = path.Target.String()
+					case errors.Is(err, os.ErrNotExist):
+					default:
+						r.Violation("mismatch/path-lookup-"+p.name, fmt.Sprintf("%s: %s: %v", c.wid, q, err), c.rec(q, want, fmt.Sprint(err)))
+						continue
+					}
+					site := "path-lookup-" + p.name
+					r.Eval(1)
+					r.Note("paths", site)
+					if got == want {
+						continue
+					}
+					// classify against the readings the row scan is known to implement instead of the documented fold
+					class := "mismatch"
+					// (hist holds non-deleted claims only, so none of the three row readings explains an answer
+					// that comes from a deleted claim; they are tried first because "the fold without
+					// deletions" can coincide with them, e.g. set A, del, then a deleted set A)
+					switch {
+					case got == newestRow(hist, t.t, false):
+						class = "pathrows-del-attribute-ignored" // newest row with a target wins; del-attribute does not end the path
+					case preEpoch && got == newestRow(hist, t.t, true):
+						class = "pathrows-pre-epoch-ignored"
+					case inSet(newestRowsBySecond(hist, t.t, preEpoch), got):
+						class = "pathrows-second-granularity"
+					case want != alt && got == alt:
+						class = "deleted-claim-ignored"
+						r.Note("deleted_claim_ignored_sites", site)
+					}
+					r.Note("pathrows_classes", class)
+					r.Violation(class+"/"+site, fmt.Sprintf("%s: %s = %q, model says %q", c.wid, q, got, want), c.rec(q, want, got))
+				}
+			}
+		}
+	}
+}
+
+// newestRow is the target of the newest claim of hist (date-sorted) that carries a reference value
+// and is dated no later than at; del-attribute claims count like set claims (what a scan of the path
+// rows that ignores the active flag yields).  With skipPreEpoch, claims before 1970 are invisible.
+func newestRow(hist []hw.ClaimInfo, at time.Time, skipPreEpoch bool) string {
+	out := ""
+	for _, h := range hist {
+		if h.Value == "" || (!at.IsZero() && h.Date.After(at)) || (skipPreEpoch && h.Date.Unix() < 0) {
+			continue
+		}
+		out = h.Value
+	}
+	return out
+}
+
+// newestRowsBySecond: the targets of all claims with a reference value inside the newest whole second
+// that is not after at's second (answers a scan with one-second resolution may give).
+func newestRowsBySecond(hist []hw.ClaimInfo, at time.Time, skipPreEpoch bool) []string {
+	var best int64
+	var out []string
+	for _, h := range hist {
+		s := h.Date.Unix()
+		if h.Value == "" || (!at.IsZero() && s > at.Unix()) || (skipPreEpoch && s < 0) {
+			continue
+		}
+		if out == nil || s > best {
+			best, out = s, []string{h.Value}
+		} else if s == best {
+			out = append(out, h.Value)
+		}
+	}
+	if out == nil {
+		out = []string{""}
+	}
+	return out
+}
+
+func inSet(v []string, x string) bool { return contains(v, x) }
+
+// checkPathsOfTarget judges PathsOfSignerTarget: the (base, suffix) pairs whose camliPath value is target now.
+func (c *wc) checkPathsOfTarget() {
+	w, r := c.w, c.r
+	for _, pn := range w.Permanodes {
+		if w.Deleted(pn) {
+			return // listing paths from/to deleted permanodes is not stated; keep the world out
+		}
+	}
+	for si := 1; si <= len(w.Signers); si++ {
+		signer := w.Signers[si-1]
+		for _, target := range w.Permanodes {
+			want := map[string]bool{}
+			ever := map[string]bool{}
+			for _, base := range w.Permanodes {
+				for _, attr := range w.AttrNames(base) {
+					if !strings.HasPrefix(attr, "camliPath:") {
+						continue
+					}
+					key := base.String() + "/" + strings.TrimPrefix(attr, "camliPath:")
+					if first(w.ValuesList(base, attr, time.Time{}, si, true)) == target.String() {
+						want[key] = true
+					}
+					for _, ci := range w.Claims {
+						if ci.PN == base && ci.Attr == attr && ci.Signer == si && ci.Kind != hw.Del && ci.Value == target.String() && !w.Deleted(ci.Ref) {
+							ever[key] = true
+						}
+					}
+				}
+			}
+			for _, p := range c.paths {
+				ps, err := p.ix.PathsOfSignerTarget(c.ctx, signer.PubRef, target)
+				q := fmt.Sprintf("PathsOfSignerTarget(signer s%d, target %s)", si, target)
+				site := "paths-of-target-" + p.name
+				r.Eval(1)
+				r.Note("paths", site)
+				if err != nil {
+					r.Violation("mismatch/"+site, fmt.Sprintf("%s: %s: %v", c.wid, q, err), c.rec(q, nil, err.Error()))
+					continue
+				}
+				got := map[string]bool{}
+				for _, x := range ps {
+					got[x.Base.String()+"/"+x.Suffix] = true
+				}
+				for k := range want {
+					if !got[k] {
+						r.Violation("mismatch/"+site, fmt.Sprintf("%s: %s does not list %s, whose value is the target", c.wid, q, k), c.rec(q, keys(want), keys(got)))
+					}
+				}
+				for k := range got {
+					if want[k] {
+						continue
+					}
+					class := "mismatch"
+					if ever[k] {
+						class = "pathrows-superseded-path-listed" // the path pointed at target once; a later claim changed it
+					}
+					r.Note("pathrows_classes", class)
+					r.Violation(class+"/"+site, fmt.Sprintf("%s: %s lists %s, whose value is not the target now", c.wid, q, k), c.rec(q, keys(want), keys(got)))
+				}
+			}
+		}
+	}
+}
+
+func keys(m map[string]bool) []string {
+	var out []string
+	for k := range m {
+		out = append(out, k)
+	}
+	sort.Strings(out)
+	return out
 }
 
 func contains(v []string, x string) bool {
@@ -387,5 +968,3 @@ func contains(v []string, x string) bool {
 	}
 	return false
 }
-
-var _ = strings.Join
